@@ -144,9 +144,9 @@ func c08Make(w *W, r *rand.Rand, k int) *c08Case {
 	}
 	cfg := cfgFor(tree, OptSet(r.Intn(16)), undefined)
 	cfg.Infix = infix
-	if r.Intn(4) == 0 {
+	if r.Intn(6) == 0 {
 		// a Config with many entries in every map (sizes around powers of two, where a map or a lookup table may change shape)
-		cfg.Pad = []int{63, 64, 65, 128, 300, 1000}[r.Intn(6)]
+		cfg.Pad = []int{63, 64, 65, 128, 257, 300}[r.Intn(6)]
 		w.Inc("padded_configs")
 	}
 	cfg.Consts = map[string]interface{}{}
@@ -347,6 +347,7 @@ func c08Run(w *W, idx int) {
 	c08Aliasing(w, r, cases[0])
 	c08NilConfig(w, r)
 	c08OtherConfigs(w, r)
+	c08OtherNotation(w, r)
 	// The caller edits its Config between two compilations (same object): the second compilation is a function of the
 	// new contents, i.e. it gives what an equal Config that was never compiled with gives.
 	for i, c := range cases {
@@ -754,5 +755,53 @@ func c08OtherConfigs(w *W, r *rand.Rand) {
 	w.Inc("other_config_registration_probes")
 	if before != after {
 		w.Fail("compile-depends-on-other-configs", "Compile(config, %q) gave %q; after an unrelated Config registered operators/variables/constants of the same names it gives %q for an equal config", src, firstN(before, 300), firstN(after, 300))
+	}
+}
+
+var c08FreshNames int
+
+// c08OtherNotation: what Compile makes of (config, source) does not depend on whether the same text - the same words -
+// was compiled before under a Config with the other notation (a service that keeps rules of both kinds). Every probe uses
+// names this process has never seen: one text is compiled directly, its twin (other fresh names, same shape) after the
+// other notation has seen it; the outcomes must be the same up to the names.
+func c08OtherNotation(w *W, r *rand.Rand) {
+	fresh := func() string {
+		c08FreshNames++
+		return fmt.Sprintf("account.flags.is_blocked_%d_x%d", w.Case, c08FreshNames)
+	}
+	shapes := []string{"!%s && b0", "b0 || !%s", "(!%s)", "!%s == b0", "(not !%s)", "(and !%s b0)", "-%s + 1", "(- %s 1)", "%s&&b0", "(%s)", "if(!%s, 1, 2)"}
+	shape := shapes[r.Intn(len(shapes))]
+	optimize := r.Intn(2) == 0
+	mk := func(infix bool, name string) *eval.Config {
+		c := eval.NewConfig(eval.Optimizations(optimize))
+		c.VariableKeyMap["b0"] = 1
+		c.VariableKeyMap[name] = 2
+		if infix {
+			c.CompileOptions[eval.InfixNotation] = true
+		}
+		return c
+	}
+	comp := func(infix bool, name string) string {
+		src := fmt.Sprintf(shape, name)
+		e, co := compileGuard(mk(infix, name), src)
+		w.Evals++
+		switch {
+		case co.Panic != nil:
+			return fmt.Sprint("panic: ", co.Panic)
+		case co.Err != nil:
+			return "error"
+		}
+		d, _ := dumpGuard(e)
+		return "ok: " + strings.ReplaceAll(d, name, "NAME")
+	}
+	for _, infixFirst := range []bool{false, true} {
+		a, b := fresh(), fresh()
+		direct := comp(!infixFirst, a) // the notation under test, on words never seen before
+		comp(infixFirst, b)            // the other notation sees the twin text first
+		after := comp(!infixFirst, b)
+		w.Inc("other_notation_probes")
+		if direct != after {
+			w.Fail("compile-depends-on-other-notation", "Compile of %q (infix=%v) gives %q when the text is new to the process, and %q after the same text was compiled under a Config with the other notation", fmt.Sprintf(shape, "NAME"), !infixFirst, firstN(direct, 300), firstN(after, 300))
+		}
 	}
 }
